@@ -934,6 +934,12 @@ func (ex *Exec) execInstr(fr *frame, st *State, in ssa.Instruction) {
 	case *ssa.MakeMap:
 		ref := ex.freshRef(st)
 		st.vals[in] = ref
+		// a new map holds no entry
+		if mt, ok := in.Type().Underlying().(*types.Map); ok {
+			_, hn, _, hs := ex.mapRegions(st, mt)
+			hr := ex.getRegion(st, hn, hs)
+			st.heap[hn] = p.Store(hr, ref, ex.tm.constArr(p.ArraySort(ex.tm.SortOf(mt.Key()), BoolSort), p.False()))
+		}
 	case *ssa.MakeChan:
 		ref := ex.freshRef(st)
 		st.vals[in] = ref
